@@ -168,14 +168,14 @@ func buildInputs(t *vk.T) []*input {
 		plain  bool
 		chunk  int
 	}
-	specs := []os{{50000, 60000, false, 0}, {20000, 30000, true, 2048}, {6000, 20, false, 0}, {3000, 5, true, 0}, {12000, 100, false, 4096}}
+	specs := []os{{50000, 60000, false, 0}, {20000, 30000, true, 0}, {6000, 20, false, 0}, {3000, 5, true, 0}, {12000, 100, false, 0}}
 	for i := 0; i < t.Pick(0, 12); i++ {
 		n := 1000 + rng.IntN(40000)
 		per := []int{1, 3, 10, 50, 200, n + 10}[rng.IntN(6)]
 		if per == 1 && n > 5000 {
 			n = 5000
 		}
-		specs = append(specs, os{n, per, rng.IntN(2) == 0, []int{0, 0, 512, 4096}[rng.IntN(4)]})
+		specs = append(specs, os{n, per, rng.IntN(2) == 0, []int{0, 0, 0, 0}[rng.IntN(4)]})
 	}
 	for _, s := range specs {
 		ins = append(ins, &input{Name: fmt.Sprintf("objstm/n=%d,per=%d,plain=%v,chunk=%d", s.n, s.per, s.plain, s.chunk), Class: "objstm",
